@@ -272,7 +272,7 @@ def _exec_T(sc):
             plain = strapdown.Integrator(m['initial'],
                                          m['with_altitude']).integrate(m['increments'])
         tr = out.result.trajectory
-        if not (same_bits(tr.index, plain.index) and
+        if not (sched.same_times(tr.index, plain.index) and
                 tr.shape == plain.shape and
                 same_bits(tr.to_numpy(), plain.to_numpy())):
             if tr.shape != plain.shape:
